@@ -43,6 +43,7 @@ class World:
         self.eager_out: dict[str, Any] = {}
         self.converted: set[str] = set()
         self.late_done = False
+        self.x64_ctx: list = []  # stack of (context manager, effective flag before entering)
 
     def prog(self, pid: str) -> Any:
         from sim import programs
@@ -348,6 +349,23 @@ def _do_misc(w: World, op: dict, idx: int, log: EventLog, viol: list, stats: Cou
         jax.config.update("jax_enable_x64", bool(op["value"]))
         w.user_x64 = bool(op["value"])
         stats["set_x64"] += 1
+    elif kind == "enter_x64_ctx":
+        enable = getattr(jax, "enable_x64", None)
+        if callable(enable) and len(w.x64_ctx) < 2:
+            before = bool(jax.config.jax_enable_x64)
+            cmgr = enable(bool(op["value"]))
+            cmgr.__enter__()
+            w.x64_ctx.append((cmgr, before))
+            stats["x64_ctx_entered"] += 1
+    elif kind == "exit_x64_ctx":
+        if w.x64_ctx:
+            cmgr, before = w.x64_ctx.pop()
+            cmgr.__exit__(None, None, None)
+            after = bool(jax.config.jax_enable_x64)
+            stats["x64_ctx_exited"] += 1
+            if after != before and not w.control:
+                viol.append({"sig": f"C13|x64_flag_after_ctx|{before}->{after}", "cls": "x64_flag_after_ctx", "detail": {"effective_before_entering_the_users_context": before, "after_leaving_it": after, "note": "a conversion inside the user's jax.enable_x64(...) block changed the global flag"}, "replay_ops": list(executed)})
+                jax.config.update("jax_enable_x64", before)
     elif kind == "gc":
         gc.collect()
         stats["gc_collect"] += 1
@@ -492,6 +510,7 @@ def gen_history(seed: int, run: int, registry: list[str], n_ops: int) -> list[di
     ops: list[dict] = []
     late = r.random() < 0.5
     nested_poison = r.random() < 0.15
+    open_ctx = 0
     for j in range(n_ops):
         u = r.random()
         if u < 0.55:
@@ -512,8 +531,15 @@ def gen_history(seed: int, run: int, registry: list[str], n_ops: int) -> list[di
             ops.append(op)
         elif u < 0.78:
             ops.append({"op": "eager", "pid": r.choice(probes)})
-        elif u < 0.86:
+        elif u < 0.82:
             ops.append({"op": "set_x64", "value": r.random() < 0.5})
+        elif u < 0.86:
+            if open_ctx and r.random() < 0.6:
+                ops.append({"op": "exit_x64_ctx"})
+                open_ctx -= 1
+            elif open_ctx < 2:
+                ops.append({"op": "enter_x64_ctx", "value": r.random() < 0.6})
+                open_ctx += 1
         elif u < 0.92:
             ops.append({"op": "gc"})
         elif u < 0.96:
@@ -523,6 +549,8 @@ def gen_history(seed: int, run: int, registry: list[str], n_ops: int) -> list[di
             ops.append({"op": "convert", "pid": FIX + "late"})
         else:
             ops.append({"op": "gc"})
+    for _ in range(open_ctx):
+        ops.append({"op": "exit_x64_ctx"})
     ops.append({"op": "set_x64", "value": False})
     for p in probes:
         ops.append({"op": "eager", "pid": p})
@@ -648,6 +676,8 @@ def main(tier: str) -> int:
                 "late_decorations": stats.get("late_decorations", 0),
                 "nested_decorations": stats.get("nested_decorations", 0),
                 "set_x64": stats.get("set_x64", 0),
+                "x64_ctx_entered": stats.get("x64_ctx_entered", 0),
+                "x64_ctx_exited": stats.get("x64_ctx_exited", 0),
                 "gc_collect": stats.get("gc_collect", 0),
             },
             "namespace_noise_ignored": noise,
